@@ -28,7 +28,11 @@ def kt? (s : String) : Option KT :=
 def cert? (s : String) : Option Cert :=
   match s.splitOn "/" with
   | ["c", id, nb, na, host, le, pub, priv, m] => do
-    pure ⟨← id.toNat?, ← nb.toInt?, ← na.toInt?, ← bool? host, ← bool? le, ← kt? pub, ← kt? priv, ← bool? m⟩
+    -- key relation: 1 = the leaf certifies the private key, 0 = an unrelated key,
+    -- m = a near miss (EC: same X, other Y; RSA: one bit of N differs) — not the key;
+    -- e = RSA same modulus, other exponent — `validCert` compares the modulus only, so this counts as a match
+    let km ← if m == "m" then some false else if m == "e" then some true else bool? m
+    pure ⟨← id.toNat?, ← nb.toInt?, ← na.toInt?, ← bool? host, ← bool? le, ← kt? pub, ← kt? priv, km⟩
   | _ => none
 
 def cacheVal? (s : String) : Option CacheVal :=
@@ -68,8 +72,10 @@ def ktOf (ck : CertKey) : KT := if ck.isRSA then .rsa else .ec
 /-- the CA script: `refuse`, or a descriptor; with match=1 the CA certifies the CSR's own key -/
 def ca? (s : String) : Option (CertKey → Option Cert) :=
   if s == "refuse" then some (fun _ => none) else
+  -- a near-miss key (…/m) is derived from the CSR key, hence of the certKey's type
+  let near := s.endsWith "/m"
   (cert? s).map fun c ck =>
-    some { c with id := 0, priv := ktOf ck, pub := if c.keyMatch then ktOf ck else c.pub,
+    some { c with id := 0, priv := ktOf ck, pub := if c.keyMatch || near then ktOf ck else c.pub,
                   keyMatch := c.keyMatch }
 
 def hello? (o : Op) (pfx : String) : Option Hello := do
